@@ -68,6 +68,7 @@ def features(case):
     if c["val"]: f.append("validation_loader")
     if c["ev"]: f.append("evaluator_" + c["ev"])
     if c.get("ev_cb"): f.append("evaluator_metric_callbacks")
+    if c.get("peek"): f.append("loader_partially_consumed_" + ("before_fit" if c["peek"] == "before" else "by_epoch_callback"))
     if c["cb_train"]: f.append("on_train_epoch_callback" + ("_touching_one_submodule" if c["cb_train"] == "child" else ""))
     if c["cb_val"]: f.append("on_validation_epoch_callback" + ("_touching_one_submodule" if c["cb_val"] == "child" else ""))
     if c["rem"]: f.append("partial_last_batch")
@@ -78,7 +79,7 @@ def features(case):
 # ------------------------------------------------------------------------------------------------ logged real objects
 class World:
     def __init__(self, case, seed=0):
-        self.case, self.log = case, []
+        self.case, self.log, self.mute = case, [], False
         rng = np.random.RandomState(1000 + seed)
         mode, bs = case["ev"], case["bs"]
         out = 3 if mode in (Evaluator.MULTI_CLASS, Evaluator.CATEGORICAL) else 1
@@ -133,11 +134,13 @@ class World:
 
         class LLoader(DataLoader):
             def __iter__(s):
-                log.append(("iter", s.name, world.state()))
+                if not world.mute:
+                    log.append(("iter", s.name, world.state()))
                 return super().__iter__()
 
             def __getitem__(s, idx):
-                log.append(("batch", s.name, idx))
+                if not world.mute:
+                    log.append(("batch", s.name, idx))
                 if s.raises_at is not None and idx == s.raises_at:
                     raise Boom("data pipeline failure in batch %d" % idx)
                 return super().__getitem__(idx)
@@ -193,9 +196,20 @@ class World:
         finally:
             Tensor.backward = orig
 
+    def peek(self, loader):
+        """what a user does to look at one batch: next(iter(loader)); the loader is left partially consumed (not logged: it is not part of fit)"""
+        if loader is not None and len(loader) >= 1:
+            self.mute = True
+            try:
+                next(iter(loader))
+            finally:
+                self.mute = False
+
     def cb(self, which):
         def f(model, loader):      # a callback that leaves the model (or only ONE submodule of it) in the wrong mode for what follows
             self.log.append(("cb", which))
+            if self.case.get("peek") == "callback":
+                self.peek(loader)
             if which == "train":
                 nn.Module.eval(model)
             elif which == "val":
@@ -225,6 +239,9 @@ def run_fit(case, seed=0):
     hist = exc = None
     try:
         with w.observed():
+            if c.get("peek") == "before":       # the loaders' history before fit: somebody looked at a first batch
+                w.peek(w.train_loader)
+                w.peek(w.val_loader)
             hist = w.trainer.fit(w.train_loader, c["epochs"], w.val_loader,
                                  on_train_epoch=w.cb("train-child" if c["cb_train"] == "child" else "train") if c["cb_train"] else None,
                                  on_validation_epoch=w.cb("val-child" if c["cb_val"] == "child" else "val") if c["cb_val"] else None)
